@@ -344,7 +344,20 @@ func (c *Connection) SendJSON(v interface{}) error {
 
 // Close closes the connection
 func (c *Connection) Close() error {
-	c.hub.unregister <- c
+	select {
+	case c.hub.unregister <- c:
+	default:
+		// The hub loop is not waiting to receive: it is busy, possibly
+		// running the very handler that called Close (ws.close()), and it is
+		// the only receiver of this channel. Hand the request over without
+		// blocking the caller.
+		go func() {
+			select {
+			case c.hub.unregister <- c:
+			case <-c.hub.shutdown:
+			}
+		}()
+	}
 	return c.conn.Close()
 }
 
